@@ -313,7 +313,77 @@ def part_access(ctx):
     return len(verdicts), len(eps)
 
 
+def part_restarts(ctx):
+    '''the front end is (re)started with another site root in one process:
+    every sequence of <= 3 starts over {site A, site B, bundled site}; after
+    each start every path of a menu is requested through the static resource
+    of fe.root(): what is served lies under the roots configured NOW'''
+    import builtins
+    import dawgie.context
+    import dawgie.fe as fe
+    import dawgie.fe.basis
+
+    base = os.path.join(common.scratch_root(), 'c19-restarts')
+    shutil.rmtree(base, ignore_errors=True)
+    sites = {}
+    for name in ('A', 'B'):
+        d = os.path.join(base, 'site_' + name)
+        os.makedirs(os.path.join(d, 'private'))
+        for fn in (f'{name.lower()}.txt', 'index.html', os.path.join('private', 'keys.txt')):
+            with open(os.path.join(d, fn), 'wt', encoding='utf-8') as f:
+                f.write(f'TOKEN-{name}-{fn}')
+        sites[name] = d
+    sites['bundled'] = ''
+    fe_root = os.path.join(base, 'fe')
+    os.makedirs(fe_root)
+    paths = ['/a.txt', '/b.txt', '/index.html', '/private/keys.txt', '/../site_A/a.txt', '/../site_B/b.txt',
+             '//' + sites['A'] + '/a.txt', '/', '/private/../a.txt']
+    saved = (dawgie.context.site_path, dawgie.context.fe_path, dawgie.fe.basis._root.static_pages, fe._is_active)
+    opened = []
+
+    def spy_open(file, *a, **k):
+        opened.append(os.path.realpath(os.fspath(file)))
+        return builtins.open(file, *a, **k)
+
+    fe.open = spy_open
+    fe._is_active = lambda fn: True
+    dawgie.context.fe_path = fe_root
+    try:
+        for n in (1, 2, 3):
+            for seq in itertools.product(sorted(sites), repeat=n):
+                ctx.count('restart_sequences')
+                dawgie.fe.basis._root.static_pages = None
+                for i, name in enumerate(seq):
+                    dawgie.context.site_path = sites[name]
+                    res = fe.root().static_pages
+                    allowed = [os.path.realpath(fe_root)]
+                    if name != 'bundled':
+                        allowed.append(os.path.realpath(sites[name]))
+                    for uri in paths:
+                        del opened[:]
+                        req = FakeRequest(None)
+                        req.uri = uri.encode()
+                        ctx.count('requests')
+                        try:
+                            got = res.render_GET(req)
+                        except Exception as e:  # noqa
+                            ctx.violation(f'C19/restart/static-raises/{type(e).__name__}', f'{uri}: {e!r}',
+                                          {'starts': list(seq[:i + 1]), 'uri': uri})
+                            continue
+                        body = got if isinstance(got, bytes) else str(got).encode()
+                        for other in ('A', 'B'):
+                            if other != name and f'TOKEN-{other}-'.encode() in body:
+                                ctx.violation('C19/static-serves-a-root-no-longer-configured',
+                                              f'starts {list(seq[:i + 1])}: GET {uri} returned content of site {other} '
+                                              f'while the configured site is {name}', {'starts': list(seq[:i + 1]), 'uri': uri})
+    finally:
+        (dawgie.context.site_path, dawgie.context.fe_path, dawgie.fe.basis._root.static_pages, fe._is_active) = saved
+        fe.open = builtins.open
+        shutil.rmtree(base, ignore_errors=True)
+
+
 def run(ctx):
+    part_restarts(ctx)
     depth = 4 if ctx.quick() else 5
     nsh = 32
     outcomes = 0
@@ -331,7 +401,8 @@ def run(ctx):
         'distinct_nontrivial': nverd + outcomes,
         'rule': f'(a) every path of <= {depth} segments over {len(SEGS)} symbols x 3 leading-slash forms x query/no query x '
                 f'isdep; (b) {neps} endpoints found by walking the route tree x 4 methods x certs configured x '
-                'cert presented/absent/no TLS transport x 5 access hooks; distinct_nontrivial = distinct '
+                'cert presented/absent/no TLS transport x 5 access hooks; (c) every sequence of <= 3 front-end starts over '
+                '{site A, site B, bundled site} x 9 request paths through fe.root().static_pages; distinct_nontrivial = distinct '
                 '(endpoint, configuration, verdict) tuples + distinct static responses',
         'endpoints': neps,
     }
